@@ -181,6 +181,7 @@ func runC20(c *Ctx) {
 	r.Explanation = "Decides that Broker.Reopen reaches every node and carries every failure: the per-graph reopen is applied to every value of the whole graphs map (directly or through a snapshot slice filled by a full range over the map), the per-graph reopen ranges the roots with a callback that always continues and starts the per-node walk at each pipeline's root, the per-node step invokes Reopen on the node and then visits every successor (loops whose only exits are exhaustion or an error return); and no error on the chain Node.Reopen -> doReopen -> reopen -> Broker.Reopen is dropped or replaced, with the all-nil path returning nil. sync.Map.Range visiting every key is trusted (A4)."
 	r.NotDecided = []string{"sync.Map.Range visiting every key (A4)", "behaviour of the nodes' own Reopen"}
 	c.errControls()
+	c.errStrict = true // "carries that failure"
 	reopen := c.Fn("C20.anchor", PkgRoot, "Broker", "Reopen")
 	if reopen == nil {
 		return
